@@ -186,7 +186,8 @@ class SimDevice:
         self.unlocked = False
         self.autoexec_mode = MODE_SIGNER     # mode after EXIT_MENU(autoexec) from bootloader
         self.exit_modes = []                 # scripted modes after successive exits
-        self.exit_drop = "read"              # how the link drops at exit
+        self.exit_drop = "read"              # how the link drops at exit (None: it does not drop)
+        self.exit_drops = []                 # scripted per-exit override of exit_drop
         self.newpin_answer = "ack"           # ack | refuse | err
         self.unlock_answer = None            # None: compare pins; True/False forced
         self.journal = None                  # file path: durable device PIN (crash tests)
@@ -250,7 +251,10 @@ class SimDevice:
             self.mode = natural
         self.sign = None
         self.blk = None
-        raise DeviceDropsLink(self.exit_drop)
+        drop = self.exit_drops.pop(0) if self.exit_drops else self.exit_drop
+        if drop is None:
+            return               # the app exits but the link stays up: the caller answers 0x9000
+        raise DeviceDropsLink(drop)
 
     # ------------------------------------------------------------------ dispatcher
     def handle(self, apdu):
@@ -323,6 +327,7 @@ class SimDevice:
             return 0x9000, self._hdr(cmd)
         if cmd in (0xFF, 0xFA):
             self._exit(self.autoexec_mode if cmd == 0xFF else MODE_BOOT)
+            return 0x9000, self._hdr(cmd)
         return 0x6D00, b""
 
     def _sgx_boot(self, cmd, data, apdu):
@@ -361,6 +366,7 @@ class SimDevice:
             return self._heartbeat(data, self.uihb, 32)
         if cmd == 0xFF:
             self._exit(MODE_SIGNER)
+            return 0x9000, self._hdr(cmd)
         return 0x6D00, b""
 
     def _heartbeat(self, data, hb, udlen):
@@ -427,6 +433,7 @@ class SimDevice:
             return self._block_op(cmd, data, advance=False)
         if cmd == 0xFF:
             self._exit(MODE_UIHB)
+            return 0x9000, self._hdr(cmd)
         return 0x6D00, b""
 
     # ---- SIGN
